@@ -108,8 +108,15 @@ int main(int argc, char** argv) {
     uint8_t f[] = {1, 0,0,0,0,0,0,0,0, 0x02, 0xe8,0x03, 1};
     uint8_t* p = heapcopy(f,sizeof f);
     sb_trajectory_t t; int rc = sb_trajectory_init_from_buffer(&t,p,sizeof f); printf("rc=%d\n", rc);
-    sb_trajectory_player_t pl; sb_trajectory_player_init(&pl,&t); sb_vector3_with_yaw_t v;
-    rc = sb_trajectory_player_get_position_at(&pl, 0.5f, &v); printf("pos rc=%d x=%f\n", rc, v.x);
+    sb_trajectory_player_t pl; rc = sb_trajectory_player_init(&pl,&t); printf("player init rc=%d\n", rc); sb_vector3_with_yaw_t v;
+    if (!rc) { rc = sb_trajectory_player_get_position_at(&pl, 0.5f, &v); printf("pos rc=%d x=%f\n", rc, v.x); }
+    /* second segment truncated: the first answers, the second is a parse error, then the first answers again */
+    uint8_t g[] = {1, 5,0,0,0,0,0,0,0, 0x01, 0xe8,0x03, 10,0, 0x02, 0xe8,0x03, 1};
+    uint8_t* q = heapcopy(g,sizeof g);
+    rc = sb_trajectory_init_from_buffer(&t,q,sizeof g); rc = sb_trajectory_player_init(&pl,&t); printf("player init rc=%d\n", rc);
+    rc = sb_trajectory_player_get_position_at(&pl, 0.5f, &v); printf("pos(0.5) rc=%d x=%f\n", rc, v.x);
+    rc = sb_trajectory_player_get_position_at(&pl, 1.5f, &v); printf("pos(1.5) rc=%d\n", rc);
+    rc = sb_trajectory_player_get_position_at(&pl, 0.0f, &v); printf("pos(0) rc=%d x=%f (start is 5)\n", rc, v.x);
   }
   if (which == 15) { /* D2/D3: yaw control shorter than its header; truncated delta */
     uint8_t f[] = {1, 0}; uint8_t* p = heapcopy(f,sizeof f);
